@@ -146,7 +146,7 @@ def case_term(ops, regs, rets):
     ops_t = "[" + "; ".join(op_term(o) for o in ops) + "]"
     regs_t = "[" + "; ".join(_obs_term(r) for r in regs) + "]"
     rets_t = "[" + "; ".join("None" if r is None else f"Some {_obs_term(r)}" for r in rets) + "]"
-    return f"({NREGS}%nat, {ops_t}, {regs_t}, {rets_t})"
+    return f"(({NREGS}%nat, {ops_t}, {regs_t}, {rets_t}) : poly_case)"
 
 
 def run(rep, pid, rng, n):
